@@ -54,25 +54,47 @@ def removeEdge (o : WOps W) (s : St W) (pos k : Nat) : St W :=
   let s := { s with mark := wrI s.mark pos 0, wt := wrW s.wt k w }
   if o.lt w o.one then { s with split := wrI s.split k FN, unassigned := s.unassigned - 1 } else s
 
-def pass (o : WOps W) (S T : Csr) (s : St W) : St W :=
-  -- SELECT INDEPENDENT SET (splitting is only read here)
-  let dlist := (List.range S.n).filter (fun i =>
+/-- guarded edge removal: the body shared by P5 and P6 (`e = (row, position, column)`) -/
+def guardedRemove (o : WOps W) (guard : St W → Nat × Nat × Nat → Bool) (s : St W)
+    (e : Nat × Nat × Nat) : St W :=
+  if guard s e then removeEdge o s e.2.1 e.2.2 else s
+
+def g5 (s : St W) (e : Nat × Nat × Nat) : Bool :=
+  rdI s.split e.2.2 == UN && rdI s.mark e.2.1 != 0
+
+def g6 (c : Nat) (s : St W) (e : Nat × Nat × Nat) : Bool :=
+  rdI s.split e.2.2 == UN && rdI s.mark e.2.1 != 0 && rdI s.cache e.2.2 == (c : Int)
+
+/-- entries of row `i` as `(row, position, column)` -/
+def Csr.rowE (G : Csr) (i : Nat) : List (Nat × Nat × Nat) :=
+  (G.rowPos i).map (fun pm => (i, pm.1, pm.2))
+
+/-- P5 for one new C-point: "nbrs that influence C points are not good C points" -/
+def p5 (o : WOps W) (S : Csr) (s : St W) (c : Nat) : St W :=
+  (S.rowE c).foldl (guardedRemove o g5) s
+
+def p6Cache (T : Csr) (s : St W) (c : Nat) : St W :=
+  (T.rowPos c).foldl (fun s pj =>
+    if rdI s.split pj.2 == UN then { s with cache := wrI s.cache pj.2 c } else s) s
+
+/-- P6 for one new C-point `c`: for `j` depending on `c`, entries `(j, k)` with `k` depending on `c` -/
+def p6 (o : WOps W) (S T : Csr) (s : St W) (c : Nat) : St W :=
+  (T.rowPos c).foldl (fun s pj => (S.rowE pj.2).foldl (guardedRemove o (g6 c)) s) (p6Cache T s c)
+
+def select (o : WOps W) (S T : Csr) (s : St W) : List Nat :=
+  (List.range S.n).filter (fun i =>
     rdI s.split i == UN &&
       !(heavier o s i ((S.rowPos i).map (·.2))) && !(heavier o s i ((T.rowPos i).map (·.2))))
-  let s := { s with unassigned := s.unassigned - dlist.length }
-  let s := dlist.foldl (fun s i => { s with split := wrI s.split i CN }) s
-  -- P5
-  let s := dlist.foldl (fun s c =>
-    (S.rowPos c).foldl (fun s pj =>
-      if rdI s.split pj.2 == UN && rdI s.mark pj.1 != 0 then removeEdge o s pj.1 pj.2 else s) s) s
-  -- P6
-  dlist.foldl (fun s c =>
-    let s := (T.rowPos c).foldl (fun s pj =>
-      if rdI s.split pj.2 == UN then { s with cache := wrI s.cache pj.2 c } else s) s
-    (T.rowPos c).foldl (fun s pj =>
-      (S.rowPos pj.2).foldl (fun s pk =>
-        if rdI s.split pk.2 == UN && rdI s.mark pk.1 != 0 && rdI s.cache pk.2 == (c : Int)
-        then removeEdge o s pk.1 pk.2 else s) s) s) s
+
+def markC (s : St W) (dlist : List Nat) : St W :=
+  dlist.foldl (fun s i => { s with split := wrI s.split i CN })
+    { s with unassigned := s.unassigned - dlist.length }
+
+def pass (o : WOps W) (S T : Csr) (s : St W) : St W :=
+  let dlist := select o S T s
+  let s := markC s dlist
+  let s := dlist.foldl (p5 o S) s
+  dlist.foldl (p6 o S T) s
 
 def run (o : WOps W) (S T : Csr) (w0 : Array W) (fuel : Nat) : Array Int × Bool :=
   let rec go (fuel : Nat) (s : St W) : St W × Bool :=
